@@ -63,6 +63,7 @@ type HRec struct {
 	Tag            string
 	Inv, Ret       int64 // global logical clock
 	Pub0, Pub1     int64 // commits published at invocation / at return
+	Per0, Per1     int   // index of the last persisted state at invocation / at return
 	OwnCommit      bool  // the call itself published a commit (it ran on its own transaction, not the session's)
 	Res            OpResult
 }
@@ -76,6 +77,10 @@ type FaultStore struct {
 	next  string
 	Calls int
 	hook  func(point string, args ...interface{})
+	// Persisted[k] = contents of db.c after the k-th successful store (0 = state the scenario starts
+	// with); Failed = contents the failed / panicking store calls were asked to write
+	Persisted [][]string
+	Failed    [][]string
 }
 
 func (s *FaultStore) setNext(k string) { s.mu.Lock(); s.next = k; s.mu.Unlock() }
@@ -97,16 +102,33 @@ func (s *FaultStore) Store(c *lungo.Catalog) error {
 		hook("store.enter")
 	}
 	switch k {
-	case "storeFail":
-		return errStoreFault
-	case "storePanic":
+	case "storeFail", "storePanic":
+		s.mu.Lock()
+		s.Failed = append(s.Failed, contentsOf(c, lungo.Handle{DB, Coll}))
+		s.mu.Unlock()
+		if k == "storeFail" {
+			return errStoreFault
+		}
 		panic("injected store panic")
 	}
 	err := s.inner.Store(c)
+	if err == nil {
+		// the persisted state changes exactly here (C05 monitors)
+		s.mu.Lock()
+		s.Persisted = append(s.Persisted, contentsOf(c, lungo.Handle{DB, Coll}))
+		s.mu.Unlock()
+	}
 	if hook != nil {
 		hook("store.exit")
 	}
 	return err
+}
+
+// persistedIndex is the index of the last persisted state.
+func (s *FaultStore) persistedIndex() int {
+	s.mu.Lock()
+	defer s.mu.Unlock()
+	return len(s.Persisted) - 1
 }
 
 func (s *FaultStore) setHook(h func(point string, args ...interface{})) {
@@ -123,15 +145,16 @@ type World struct {
 	Sessions map[int]lungo.ISession
 	ctl      *Controller
 
-	mu      sync.Mutex
-	streams map[int]lungo.IChangeStream
-	tokens  map[int]bson.Raw            // resume token of the last event delivered on a slot
-	times   map[int]primitive.Timestamp // cluster time of the last event delivered on a slot
-	handles map[int]*lungo.Transaction
-	stale   map[int]*lungo.Transaction // finished handles (for the misuse op estale)
-	History []HRec
-	seq     int
-	Old     []*Ev // oplog before the scenario (targets of the hand-made start positions old:<k>, oldtime:<k>)
+	mu       sync.Mutex
+	streams  map[int]lungo.IChangeStream
+	tokens   map[int]bson.Raw            // resume token of the last event delivered on a slot
+	times    map[int]primitive.Timestamp // cluster time of the last event delivered on a slot
+	handles  map[int]*lungo.Transaction
+	stale    map[int]*lungo.Transaction // finished handles (for the misuse op estale)
+	History  []HRec
+	seq      int
+	FilePath string // file of the FileStore ("" = memory store)
+	Old      []*Ev  // oplog before the scenario (targets of the hand-made start positions old:<k>, oldtime:<k>)
 }
 
 // DB and Coll are the default namespace of the scenarios.
@@ -184,6 +207,10 @@ func NewWorld(o WorldOptions) (*World, error) {
 			return nil, err
 		}
 	}
+	fs.mu.Lock()
+	fs.Persisted = [][]string{Contents(engine, lungo.Handle{DB, Coll})}
+	fs.mu.Unlock()
+	w.FilePath = o.FilePath
 	return w, nil
 }
 
@@ -279,6 +306,8 @@ func modelCall(op Op) CallInfo {
 		return CallInfo{Call: "close", Op: op.Kind}
 	case "watch":
 		return CallInfo{Call: "crit", Crit: "watch", Op: op.Kind}
+	case "cat":
+		return CallInfo{Call: "crit", Crit: "read", Op: op.Kind}
 	case "wtx":
 		return CallInfo{Call: "sessStart", Sess: op.Sess, Op: op.Kind}
 	}
@@ -288,10 +317,22 @@ func modelCall(op Op) CallInfo {
 // Do executes one script op of actor a on the real API, wrapped in recover(), and records it.
 func (w *World) Do(a *actor, idx int, op Op) {
 	c := w.ctl
-	ctx, cancel := context.WithCancel(context.Background())
-	defer cancel()
+	// context kinds: "" = WithCancel (cancellable by the controller), "bg" = context.Background()
+	// (never done), "timeout" = WithTimeout 30 s (a Done channel that never fires within a scenario)
+	var ctx context.Context
+	var cancel context.CancelFunc
+	switch op.Ctx {
+	case "bg":
+		ctx = context.Background()
+	case "timeout":
+		ctx, cancel = context.WithTimeout(context.Background(), 30*time.Second)
+		defer cancel()
+	default:
+		ctx, cancel = context.WithCancel(context.Background())
+		defer cancel()
+	}
 	dead := false
-	if op.Fault == "precancel" {
+	if op.Fault == "precancel" && cancel != nil {
 		cancel()
 		dead = true
 	}
@@ -333,7 +374,9 @@ func (w *World) call(ctx context.Context, a *actor, idx, sub int, op Op, inWtx b
 	h.Inv = c.Tick()
 	h.Pub0 = c.Published()
 	own0 := atomic.LoadInt64(&a.pubs)
+	h.Per0 = w.Store.persistedIndex()
 	defer func() {
+		h.Per1 = w.Store.persistedIndex()
 		if p := recover(); p != nil {
 			res.Cls = "panic"
 			res.Panic = fmt.Sprint(p)
@@ -496,6 +539,21 @@ func (w *World) call(ctx context.Context, a *actor, idx, sub int, op Op, inWtx b
 			return res
 		}
 		err = w.Engine.Commit(t)
+	case "eabortstale":
+		// what every driver write does after a successful Commit: the deferred Abort of the SAME,
+		// already finished transaction — here as a call of its own, so that the controller can run
+		// other actors between the Commit and this Abort (outside the model's vocabulary)
+		w.mu.Lock()
+		t := w.stale[a.id]
+		w.mu.Unlock()
+		if t == nil {
+			res.Cls = "skipped"
+			return res
+		}
+		w.Engine.Abort(t)
+	case "cat":
+		// Engine.Catalog(): a short e.mutex section; what it returns is the visible state
+		res.Docs = Contents(w.Engine, lungo.Handle{DB, Coll})
 	case "ecommit", "eabort":
 		w.mu.Lock()
 		t := w.handles[a.id]
